@@ -7,23 +7,23 @@ HERE = os.path.dirname(os.path.dirname(os.path.abspath(__file__)))
 
 TABLE = {
     'C01': dict(
-        text='Static selection-discipline check of the three deciders (MerchantEngine.match first_match branch, legacy loop of normalize_merchant, Unknown fallback): rule order preserved by every builder, first-wins accumulator guarded by matched & unset & has-category, result fields read from one winner binding, non-matching rules inert, transforms applied before matching, right variable environment. Decides the necessary structural conditions on all paths of these functions, not the truth of any rule condition.',
+        text='Static selection-discipline check of the three deciders (MerchantEngine.match first_match branch, legacy loop of normalize_merchant, Unknown fallback): rule order preserved by every builder, first-wins accumulator guarded by matched & unset & has-category, result fields read from one winner binding, non-matching rules inert, transforms applied before matching, right variable environment. Decides the necessary structural conditions on all paths of these functions, not the truth of any rule condition. The CSV loader turns every row into a rule independently of the rows before it (no carried container or name guards the append); the dispatch between expression and regex is decided by the expression parser, not by sniffing characters.',
         note='Assumes lexical name resolution, CPython semantics; the truth of match conditions and legacy modifier arithmetic are not decided.',
         tech='CFG control dependence + reaching definitions + who-may-reorder scan over the call graph'),
     'C02': dict(
-        text='Static check that tag collection is control-dependent on the match flag only, accumulates monotonically in both modes, passes lower()/strip/non-empty, that every winner selection filters on has-category, and that tags survive every return of normalize_merchant and reach the transaction dict in all three parsers.',
+        text='Static check that tag collection is control-dependent on the match flag only, accumulates monotonically in both modes, passes lower()/strip/non-empty, that every winner selection filters on has-category, and that tags survive every return of normalize_merchant and reach the transaction dict in all three parsers. Tags items are stored by the loader as written (no case fold on {expression} text); values produced by a generator helper are judged at their yield.',
         note='Values of {expr} tags are not decided.',
         tech='control dependence + def-use provenance on tag accumulators'),
     'C03': dict(
-        text='Inductive confinement argument over expr_parser: gate dominance of validate_ast before cache/evaluation, no forbidden builtins or modules reachable, closed reflective names (getattr arguments), closed callee tables, functions never returned as values, whitelist x evaluator cross-check, inputs not mutated, interpreter objects not stringified. Every premise is a syntactic/dataflow fact checked on every path of every _eval_*/_fn_* method.',
+        text='Inductive confinement argument over expr_parser: gate dominance of validate_ast before cache/evaluation, no forbidden builtins or modules reachable, closed reflective names (getattr arguments), closed callee tables, functions never returned as values, whitelist x evaluator cross-check, inputs not mutated, interpreter objects not stringified. Every premise is a syntactic/dataflow fact checked on every path of every _eval_*/_fn_* method. No rule / view text is used as a str.format template in the loader modules; getattr names are literals, ast class names or members of a constant collection / table of public names.',
         note='Resource exhaustion not in scope; C-level library functions trusted to behave as documented.',
         tech='dominator queries + taint/provenance over the evaluator classes + call-graph reachability of sinks'),
     'C04': dict(
-        text='Structural clauses only: identifier normalisation agrees between definition and lookup sites, case-fold symmetry in each string primitive, zero-divisor guards, short-circuit shape of BoolOp, comparison-chain shape, primitive-name agreement, sibling evaluator agreement, operator-table agreement, function->library-primitive table, reference tables subset of implementation. The value-level part of the statement is declined.',
+        text='Structural clauses only: identifier normalisation agrees between definition and lookup sites, case-fold symmetry in each string primitive, zero-divisor guards, short-circuit shape of BoolOp, comparison-chain shape, primitive-name agreement, sibling evaluator agreement, operator-table agreement, function->library-primitive table, reference tables subset of implementation. The value-level part of the statement is declined. Every identifier read off an expression tree is lower-cased; the text handed to ast.parse is the caller\'s text, unrewritten; name tables are read through if-chains or constant collections alike.',
         note='Function results, equivalence laws, date and float semantics are NOT decided (majority of the statement).',
         tech='AST normal-form comparison of sibling evaluators + provenance checks + table agreement'),
     'C05': dict(
-        text='Static check of parse_generic_csv: finite non-zero guard between amount conversion and append, per-row try containment with handler coverage of the exception-escape set, column provenance of every emitted field, sign discipline (abs before negate, once), total delimiter dispatch with header skip, append inside the row loop with unsorted return.',
+        text='Static check of parse_generic_csv: finite non-zero guard between amount conversion and append, per-row try containment with handler coverage of the exception-escape set, column provenance of every emitted field, sign discipline (abs before negate, once), total delimiter dispatch with header skip, append inside the row loop with unsorted return. Row independence (no name or container carries information between rows); the classifier receives a date; each reader\'s first line is skipped under has_header.',
         note='What csv.reader / strptime / parse_amount return for a given cell is not decided.',
         tech='dominator + exception-escape analysis + def-use provenance'),
     'C06': dict(
@@ -31,7 +31,7 @@ TABLE = {
         note='Floating-point associativity under permutation is not decided.',
         tech='decision-tree normal form + path enumeration over the loop-body CFG + def-use'),
     'C07': dict(
-        text='State inventory of all module-level mutable bindings; memo-soundness of each cache store (key carries every input of the value); every path of get_all_rules assigns the engine cache; parse() resets every attribute written while parsing; evaluators are per-evaluation; match() and everything it reaches never stores into rules / data_sources / the transaction outside apply_transforms.',
+        text='State inventory of all module-level mutable bindings; memo-soundness of each cache store (key carries every input of the value); every path of get_all_rules assigns the engine cache; parse() resets every attribute written while parsing; evaluators are per-evaluation; match() and everything it reaches never stores into rules / data_sources / the transaction outside apply_transforms. Only the functions of the cache protocol read the engine cache; nothing changes an engine attribute while a transaction is classified; a memo holds what was computed from its key; writing through an entry of a one-level copy counts as writing to the original.',
         note='Lexical resolution; no monkey-patching.',
         tech='global-state inventory + all-paths must-assign (CFG) + mutation/ownership scan over call-graph reachability'),
     'C08': dict(
@@ -43,24 +43,24 @@ TABLE = {
         note='Ranking arithmetic on concrete rule sets not decided.',
         tech='idiom matching + provenance of key components + table agreement'),
     'C10': dict(
-        text='classify_merchants is a full double loop appending under the filter result only; variable dicts copied before adding locals; only exclusion guard is is_excluded_from_spending; get_cv normalises to population CV; month bucket keys agree; section totals sum members; dates handed to the view context derive from real dates.',
+        text='classify_merchants is a full double loop appending under the filter result only; variable dicts copied before adding locals; only exclusion guard is is_excluded_from_spending; get_cv normalises to population CV; month bucket keys agree; section totals sum members; dates handed to the view context derive from real dates. cv depends on the merchant\'s own monthly totals only; no positional argument lands in a parameter of another name (crossed-argument rule).',
         note='Aggregate values not decided.',
         tech='CFG shape + ownership + arithmetic normal form + provenance'),
     'C11': dict(
-        text='Wiring of every documented setting from load_config/resolve_source_format through cmd_run into the consuming parameter (def-use chains), per-source isolation, error paths of the source loop keep going, parser siblings agree, documented keys are consumed.',
+        text='Wiring of every documented setting from load_config/resolve_source_format through cmd_run into the consuming parameter (def-use chains), per-source isolation, error paths of the source loop keep going, parser siblings agree, documented keys are consumed. The source file is looked up under the budget only; every source gets a FormatSpec of its own (no module-level or caller-provided cache); no setting is derived from another; crossed-argument rule over the loaders.',
         note='Report contents as values not decided; cmd_run cannot be executed by the suite, analysis is source-only.',
         tech='def-use chains across functions + CFG exit analysis of the source loop'),
     'C12': dict(
-        text='No unbound names in analyzer/report functions; script-safe embedding of the JSON data; placeholder replacement discipline; key functions injective or collision-handled; one source for headline figures; field coverage between analyzer writer and report reader.',
+        text='No unbound names in analyzer/report functions; script-safe embedding of the JSON data; placeholder replacement discipline; key functions injective or collision-handled; one source for headline figures; field coverage between analyzer writer and report reader. Finding keys of the id helpers include the sanitiser\'s own operations; formatting wrappers pass the amount unchanged; the report builders change nothing they did not create.',
         note='HTML/JSON parser round trip (library behaviour) and text layout not decided.',
         tech='symbol-table analysis + text-template/sanitiser provenance'),
     'C13': dict(
-        text='Translation validation: classification.py (ast) and the mirrored block of spending_report.js (own JS parser) are normalised to the same decision-tree terms and compared path by path for 7 function pairs and 5 constants; every JS call site of categorizeAmount is checked for argument provenance; special-tag literals outside the block are audited.',
+        text='Translation validation: classification.py (ast) and the mirrored block of spending_report.js (own JS parser) are normalised to the same decision-tree terms and compared path by path for 7 function pairs and 5 constants; every JS call site of categorizeAmount is checked for argument provenance; special-tag literals outside the block are audited. External report assets are rewritten on every run.',
         note='Assumes primitive correspondences (str.lower vs toLowerCase on ASCII tags, IEEE doubles on both sides, Set.has vs in).',
         tech='two front ends -> common decision-tree normal form, structural equality',
         level='translation_validation'),
     'C14': dict(
-        text='Literal-context escaping of values interpolated into generated rule text, operator tables of modifier_parser / evaluators / _modifier_to_expr agree, per-operator meaning agrees, writer domain within reader domain, the two converters build the same expression.',
+        text='Literal-context escaping of values interpolated into generated rule text, operator tables of modifier_parser / evaluators / _modifier_to_expr agree, per-operator meaning agrees, writer domain within reader domain, the two converters build the same expression. Every loaded CSV rule reaches the converter (no list rebuilt in between).',
         note='Regex semantics beyond the quoting layer not decided.',
         tech='text-template hole analysis + operator-table agreement + normal-form comparison'),
     'C15': dict(
@@ -68,19 +68,19 @@ TABLE = {
         note='Resumability of the half-done layout migration and torn writes not decided.',
         tech='effect-sequence extraction along the CFG + typestate automaton'),
     'C16': dict(
-        text='Sibling cross-check of cmd_run / cmd_explain / cmd_discover pipelines (feature vectors of loading, supplemental handling, parse_generic_csv keywords), one decision procedure reachable from each command, the Unknown literal contract.',
+        text='Sibling cross-check of cmd_run / cmd_explain / cmd_discover pipelines (feature vectors of loading, supplemental handling, parse_generic_csv keywords), one decision procedure reachable from each command, the Unknown literal contract. One place (load_config) decides the rules file; explain matches the amount it was given.',
         note='Output formatting not decided.',
         tech='call-graph reachability + keyword-provenance feature vectors, contradiction rule'),
     'C17': dict(
-        text='Line loops of MerchantEngine.parse and parse_sections consume-or-raise on every path, every kept expression reaches parse_expression before the engine is returned, load errors are reported by every handler, required-property guards dominate construction, classifier tests apply to the stripped line.',
+        text='Line loops of MerchantEngine.parse and parse_sections consume-or-raise on every path, every kept expression reaches parse_expression before the engine is returned, load errors are reported by every handler, required-property guards dominate construction, classifier tests apply to the stripped line. Category-or-tags requirement decided by truth table over the guards of the construction; rejections classified by the branch outcomes leading to each raise; the line is classified as written; a property line is accepted independently of the section\'s other properties; a section is never rejected because of other sections.',
         note='The full metamorphic law over all files not decided.',
         tech='CFG path/dominance rules + handler audit'),
     'C18': dict(
-        text='Positions stored from enumerate() unmodified, rejections dominate stores/construction, inspect writer tokens are accepted by the reader regex (constant evaluation of source literals), name agreement in the suggestion loop.',
+        text='Positions stored from enumerate() unmodified, rejections dominate stores/construction, inspect writer tokens are accepted by the reader regex (constant evaluation of source literals), name agreement in the suggestion loop. Every date format the detector can emit is free of commas and braces; sign flags are only written for the amount field.',
         note='Header keyword detection on real files not decided.',
         tech='dominance + provenance + regex-literal writer/reader agreement'),
     'C19': dict(
-        text='Language agreement between suggest_pattern (regex text) and the matcher its consumers wrap it in, literal-context escaping at both consumers, emitted block uses keys of the loader table.',
+        text='Language agreement between suggest_pattern (regex text) and the matcher its consumers wrap it in, literal-context escaping at both consumers, emitted block uses keys of the loader table. No regex assertion is glued around the kept words; the loader reads each line back as written.',
         note='Sub-match reasoning about stripped prefixes not decided.',
         tech='producer/consumer language inference + template hole analysis'),
     'C20': dict(
